@@ -49,6 +49,7 @@
  */
 htp_status_t htp_ch_urlencoded_callback_request_body_data(htp_tx_data_t *d) {
     htp_tx_t *tx = d->tx;
+    size_t i = 0, n = 0;
 
     // Check that we were not invoked again after the finalization.
     if (tx->request_urlenp_body->params == NULL) return HTP_ERROR;
@@ -64,11 +65,11 @@ htp_status_t htp_ch_urlencoded_callback_request_body_data(htp_tx_data_t *d) {
         bstr *name = NULL;
         bstr *value = NULL;
 
-        for (size_t i = 0, n = htp_table_size(tx->request_urlenp_body->params); i < n; i++) {
+        for (i = 0, n = htp_table_size(tx->request_urlenp_body->params); i < n; i++) {
             value = htp_table_get_index(tx->request_urlenp_body->params, i, &name);
 
             htp_param_t *param = calloc(1, sizeof (htp_param_t));
-            if (param == NULL) return HTP_ERROR;
+            if (param == NULL) goto give_up_params;
 
             param->name = name;
             param->value = value;
@@ -78,7 +79,7 @@ htp_status_t htp_ch_urlencoded_callback_request_body_data(htp_tx_data_t *d) {
 
             if (htp_tx_req_add_param(tx, param) != HTP_OK) {
                 free(param);
-                return HTP_ERROR;
+                goto give_up_params;
             }
         }
 
@@ -90,6 +91,19 @@ htp_status_t htp_ch_urlencoded_callback_request_body_data(htp_tx_data_t *d) {
     }
 
     return HTP_OK;
+
+give_up_params:
+    // The first i names and values already belong to the transaction; the parser
+    // must not free them a second time when it is destroyed. Release the rest here.
+    for (; i < n; i++) {
+        bstr *rest_name = NULL;
+        bstr *rest_value = htp_table_get_index(tx->request_urlenp_body->params, i, &rest_name);
+        bstr_free(rest_name);
+        bstr_free(rest_value);
+    }
+    htp_table_destroy_ex(tx->request_urlenp_body->params);
+    tx->request_urlenp_body->params = NULL;
+    return HTP_ERROR;
 }
 
 /**
@@ -154,11 +168,12 @@ htp_status_t htp_ch_urlencoded_callback_request_line(htp_tx_t *tx) {
 
     bstr *name = NULL;
     bstr *value = NULL;
-    for (size_t i = 0, n = htp_table_size(tx->request_urlenp_query->params); i < n; i++) {
+    size_t i, n;
+    for (i = 0, n = htp_table_size(tx->request_urlenp_query->params); i < n; i++) {
         value = htp_table_get_index(tx->request_urlenp_query->params, i, &name);
 
         htp_param_t *param = calloc(1, sizeof (htp_param_t));
-        if (param == NULL) return HTP_ERROR;
+        if (param == NULL) goto give_up_params;
         
         param->name = name;
         param->value = value;
@@ -168,7 +183,7 @@ htp_status_t htp_ch_urlencoded_callback_request_line(htp_tx_t *tx) {
 
         if (htp_tx_req_add_param(tx, param) != HTP_OK) {
             free(param);
-            return HTP_ERROR;
+            goto give_up_params;
         }
     }
 
@@ -182,6 +197,19 @@ htp_status_t htp_ch_urlencoded_callback_request_line(htp_tx_t *tx) {
     tx->request_urlenp_query = NULL;
 
     return HTP_OK;
+
+give_up_params:
+    // The first i names and values already belong to the transaction; the parser
+    // must not free them a second time when it is destroyed. Release the rest here.
+    for (; i < n; i++) {
+        bstr *rest_name = NULL;
+        bstr *rest_value = htp_table_get_index(tx->request_urlenp_query->params, i, &rest_name);
+        bstr_free(rest_name);
+        bstr_free(rest_value);
+    }
+    htp_table_destroy_ex(tx->request_urlenp_query->params);
+    tx->request_urlenp_query->params = NULL;
+    return HTP_ERROR;
 }
 
 /**
@@ -211,7 +239,11 @@ htp_status_t htp_ch_multipart_callback_request_body_data(htp_tx_data_t *d) {
             // Use text parameters.
             if (part->type == MULTIPART_PART_TEXT) {
                 htp_param_t *param = calloc(1, sizeof (htp_param_t));
-                if (param == NULL) return HTP_ERROR;
+                if (param == NULL) {
+                    // Some names and values may already belong to the transaction.
+                    tx->request_mpartp->gave_up_data = 1;
+                    return HTP_ERROR;
+                }
                 param->name = part->name;
                 param->value = part->value;
                 param->source = HTP_SOURCE_BODY;
@@ -220,6 +252,7 @@ htp_status_t htp_ch_multipart_callback_request_body_data(htp_tx_data_t *d) {
 
                 if (htp_tx_req_add_param(tx, param) != HTP_OK) {
                     free(param);
+                    tx->request_mpartp->gave_up_data = 1;
                     return HTP_ERROR;
                 }
             }
